@@ -1750,9 +1750,17 @@ class NamespaceOps:
             if lsub and not box.subscribed:
                 continue
             ok = imap_match(full, shown)
-            if not ok and name == "inbox" and full.upper() == "INBOX":
-                ok = True
-            if ok:
+            if name == "inbox":
+                # INBOX is case-insensitive: an exact name in any case must
+                # match; a wildcard pattern that matches only in some case
+                # is left open (None = don't care)
+                if full.upper() == "INBOX":
+                    ok = True
+                elif imap_match(full, "INBOX") != imap_match(full, "inbox") or (not ok and imap_match(full.upper(), "INBOX")):
+                    ok = None
+            if ok is None:
+                out[shown] = None
+            elif ok:
                 attrs = set()
                 if box.noselect:
                     attrs.add("\\noselect")
@@ -1787,8 +1795,10 @@ class NamespaceOps:
         if dup:
             self.V("C17", "list_duplicate", names=dup, cmd=line)
         gi = {("INBOX" if n.upper() == "INBOX" else n): a for n, a in got.items()}
+        dontcare = {n for n, a in exp.items() if a is None}
+        exp = {n: a for n, a in exp.items() if a is not None}
         missing = sorted(set(exp) - set(gi))
-        extra = sorted(set(gi) - set(exp))
+        extra = sorted(set(gi) - set(exp) - dontcare)
         if missing:
             self.V("C17", "list_missing", cmd=line, missing=missing, got=sorted(gi))
         if extra:
@@ -1803,6 +1813,10 @@ class NamespaceOps:
 
     async def op_lsub(self, op):
         await self.op_list(dict(op, lsub=True))
+
+    def list_key_view(self, r):
+        keep = ("\\noselect", "\\haschildren", "\\hasnochildren")
+        return sorted((n, tuple(a for a in attrs if a in keep)) for n, attrs in self.parse_list(r))
 
     def dir_snapshot(self):
         out = []
@@ -1824,10 +1838,21 @@ class NamespaceOps:
             return
         name = op["name"]
         before = self.dir_snapshot() if self.compare else None
+        lsub_before = None
         line = f"CREATE {quote(name)}"
+        if self.compare:
+            lsub_before = self.list_key_view(await self.obs.command('LIST "" "*"'))
         r = await self.run_cmd(sess, ms, line)
         if r.status is None or not self.compare:
             return
+        if not r.ok:
+            # a refused CREATE leaves the tree as listed exactly as it was
+            self.C("c17_refused_unchanged")
+            after = self.list_key_view(await self.obs.command('LIST "" "*"'))
+            if after != lsub_before:
+                self.V("C17", "refused_namespace_command_had_effect", cmd=line, listed_before=[x for x in lsub_before if x not in after][:5], listed_after=[x for x in after if x not in lsub_before][:5])
+        # "a/" names the same mailbox as "a"; a leading separator is stripped
+        name = name.strip("/")
         key = "inbox" if name.lower() == "inbox" else name
         ex = self.model.boxes.get(key)
         if name.lower() == "inbox" or (ex is not None and not ex.noselect):
@@ -1841,7 +1866,6 @@ class NamespaceOps:
             await self.ns_refused_unchanged(before, line)
             return
         self.ctx.nontrivial = True
-        name = name.strip("/")
         if ex is not None and ex.noselect:
             ex.noselect = False
             ex.msgs = []
@@ -1926,7 +1950,7 @@ class NamespaceOps:
         if r.status is None or not self.compare:
             return
         src = self.model.boxes.get(okey)
-        if src is None or nkey in self.model.boxes or nkey.startswith(okey + "/") or src.noselect:
+        if src is None or nkey in self.model.boxes or nkey.startswith(okey + "/"):
             self.C("c17_rename_invalid")
             if r.ok and (src is None or nkey in self.model.boxes):
                 self.V("C17", "rename_invalid_ok", old=old, new=new)
